@@ -19,8 +19,8 @@ ROps == {[o |-> "proof", up |-> u, blk |-> b, hasup |-> (u > 0)] : u \in 0..MaxL
         \cup {[o |-> "reopen"], [o |-> "append", runs |-> <<<<1, 1, 1>>>>]}
 
 Init == /\ truth = ("k1" :> <<>>)
-        /\ cores = ("w" :> [key |-> "k1", len |-> 0, held |-> <<>>, writable |-> TRUE, subs |-> 0])
-                   @@ ("r" :> [key |-> "k1", len |-> 0, held |-> <<>>, writable |-> FALSE, subs |-> 0])
+        /\ cores = ("w" :> [key |-> "k1", len |-> 0, held |-> <<>>, writable |-> TRUE, subs |-> 0, sealed |-> FALSE])
+                   @@ ("r" :> [key |-> "k1", len |-> 0, held |-> <<>>, writable |-> FALSE, subs |-> 0, sealed |-> TRUE])
 
 Next == \/ \E op \in WOps : Do("w", op) \/ Interrupted("w", op)
         \/ \E op \in ROps : Do("r", op) \/ Interrupted("r", op)
@@ -41,6 +41,8 @@ AppendOnly == [][\A k \in DOMAIN truth : IsPrefix(Flat(truth[k]), Flat(truth'[k]
 ReplicaBelowTruth == cores["r"].len <= RLen(truth["k1"])
 \* C12: a read-only core never extends the log
 ReadOnlyFrozen == [][~cores["w"].writable => truth' = truth]_absvars
+\* C12: sealed implies read-only, and stays so
+SealedReadOnly == \A c \in DOMAIN cores : cores[c].sealed => ~cores[c].writable
 \* run lists stay well formed
 RunsOK == \A k \in DOMAIN truth : \A j \in 1..Len(truth[k]) :
             /\ truth[k][j].n > 0
